@@ -17,7 +17,7 @@ import (
 func init() {
 	register(&propDef{
 		id:      "C22",
-		explain: "Structural necessary conditions of 'compressed bodies decode to the original': (R1) every call of a function value produced by stackless.NewFunc has its 'queue full' bool result tested, and on the false outcome the wrapped function is run inline (or the bool is returned to a caller for which the same holds) - so work is never silently skipped under load; (R2) the body compressors (methods of Response that install a compressed body stream) agree on their guards, on resetting Content-Length for streams and on the epilogue, and each one's encoding token, one-shot compressor and stream compressor reach the same compression package, and none gives the buffer that holds the uncompressed body back to its pool before the one-shot compressor has read it; (R3) each is called only under a true HasAcceptEncodingBytes test of the token it stores; (R5) wherever a codec constructor's rejection of a compression level ends in a panic, the level has passed a normaliser whose every return lies in the codec's valid range (constants of the codec package), so no caller-supplied level crashes the process. (R6) a pooled codec goes back where it came from: at every call of a helper that puts its argument into a codec pool, the argument is the result of the helper that takes from the same pool global, released with the level it was acquired with - the pools share one interface type, so the compiler accepts a zstd encoder in the deflate pool. (R7) the helper that adds Accept-Encoding to Vary leaves the header alone only after a whole-member match over the comma-separated list (not a substring search). Not decided: decode(encode(x)) = x, the codecs themselves.",
+		explain: "Structural necessary conditions of 'compressed bodies decode to the original': (R1) every call of a function value produced by stackless.NewFunc has its 'queue full' bool result tested, and on the false outcome the wrapped function is run inline (or the bool is returned to a caller for which the same holds) - so work is never silently skipped under load; (R2) the body compressors (methods of Response that install a compressed body stream) agree on their guards, on resetting Content-Length for streams and on the epilogue, and each one's encoding token, one-shot compressor and stream compressor reach the same compression package, and none gives the buffer that holds the uncompressed body back to its pool before the one-shot compressor has read it; (R3) each is called only under a true HasAcceptEncodingBytes test of the token it stores; (R5) wherever a codec constructor's rejection of a compression level ends in a panic, the level has passed a normaliser whose every return lies in the codec's valid range (constants of the codec package), so no caller-supplied level crashes the process. (R6) a pooled codec goes back where it came from: at every call of a helper that puts its argument into a codec pool, the argument is the result of the helper that takes from the same pool global, released with the level it was acquired with - the pools share one interface type, so the compiler accepts a zstd encoder in the deflate pool. (R7) the helper that adds Accept-Encoding to Vary leaves the header alone only after a whole-member match over the comma-separated list (not a substring search). (R8) in each body compressor every path to the call that announces the encoding has stored the compressed stream or the compressed buffer into the response - no 'keep the original' path reaches the announcement. Not decided: decode(encode(x)) = x, the codecs themselves.",
 		run:     runC22,
 	})
 }
@@ -364,6 +364,35 @@ func runC22(p *Prog, r *Report) {
 		name := funcName(s.fn)
 		tokOf[s.fn] = s.token
 		r.Check("R2", name+": announces an encoding token and adds Vary: Accept-Encoding", s.token != "" && s.vary, p.Pos(s.fn.Pos()), "token="+s.token+" vary="+fmt.Sprint(s.vary))
+		// R8: the announcement follows the installation. Every path to the call that stores the encoding token has
+		// installed the compressed representation: a store of the compressed stream into bodyStream, or of the buffer
+		// the one-shot compressor filled into body. A path that keeps the original bytes ("did not shrink") and still
+		// reaches the announcement labels uncompressed data as compressed.
+		{
+			installs := func(i ssa.Instruction) bool {
+				st, ok := i.(*ssa.Store)
+				if !ok {
+					return false
+				}
+				base, fv := fieldOfAddr(st.Addr)
+				if fv == nil || base == nil || typeNameOf(base) != "Response" {
+					return false
+				}
+				return fv.Name() == "bodyStream" || fv.Name() == "body"
+			}
+			var hit ssa.Instruction
+			var path []*ssa.BasicBlock
+			ncall := 0
+			allCalls(s.fn, func(b *ssa.BasicBlock, c ssa.CallInstruction) {
+				if c.Common().StaticCallee() != setCE || hit != nil {
+					return
+				}
+				ncall++
+				hit, path = reachAvoiding(s.fn, nil, func(i ssa.Instruction) bool { return i == ssa.Instruction(c) }, installs, nil)
+			})
+			r.Check("R8", name+": the encoding is announced only on paths that installed the compressed body", hit == nil && ncall > 0, p.Pos(s.fn.Pos()),
+				"SetContentEncodingBytes is reachable without a store of the compressed stream or buffer into the response: the original bytes go out labelled with the encoding, and the peer fails to decode them (or decodes garbage)", blocksString(p, path)...)
+		}
 		// the source bytes of the one-shot compression live in the response's own body buffer: that buffer goes back
 		// to its pool only after the compressor has read it (a pooled buffer is handed to the next Get at once)
 		if s.oneShot != nil {
@@ -468,6 +497,7 @@ func runC22(p *Prog, r *Report) {
 	runC22Levels(p, r)
 	runC22PoolFamily(p, r)
 	runC22Vary(p, r)
+	runC22SyncEncoder(p, r)
 }
 
 // runC22Levels (R5): a compression level comes from the caller and may be
@@ -890,4 +920,54 @@ func runC22Vary(p *Prog, r *Report) {
 func isBool1(f *ssa.Function) bool {
 	res := f.Signature.Results()
 	return res.Len() == 1 && isBool(res.At(0).Type())
+}
+
+// runC22SyncEncoder (R9): the stackless writer runs one operation of the wrapped compressor at a time and, when the
+// operation has returned, reads what the compressor wrote into its destination buffer and resets that buffer. That
+// only works for a compressor that has finished writing to its destination when Write / Flush / Close return. The
+// zstd encoder of klauspost/compress does not, unless it is built with WithEncoderConcurrency(1) ("for streams,
+// setting a value of 1 will disable async compression"): by default finished blocks are written from the encoder's
+// own goroutines after Write returned, race with the reset, and are lost - the compressed stream fails its CRC.
+// Every zstd.NewWriter call in the module passes WithEncoderConcurrency with the constant 1.
+func runC22SyncEncoder(p *Prog, r *Report) {
+	isZstd := func(f *ssa.Function, name string) bool {
+		return f != nil && f.Name() == name && f.Pkg != nil && strings.HasSuffix(f.Pkg.Pkg.Path(), "klauspost/compress/zstd")
+	}
+	n := 0
+	for _, fn := range p.funcsIn("") {
+		allCalls(fn, func(b *ssa.BasicBlock, c ssa.CallInstruction) {
+			if !isZstd(c.Common().StaticCallee(), "NewWriter") {
+				return
+			}
+			n++
+			sync := false
+			args := c.Common().Args
+			if len(args) >= 2 {
+				if sl, ok := args[len(args)-1].(*ssa.Slice); ok {
+					if al, ok := sl.X.(*ssa.Alloc); ok {
+						for _, ref := range *al.Referrers() {
+							ia, ok := ref.(*ssa.IndexAddr)
+							if !ok {
+								continue
+							}
+							for _, r2 := range *ia.Referrers() {
+								st, ok := r2.(*ssa.Store)
+								if !ok {
+									continue
+								}
+								if oc, ok := stripConv(st.Val).(*ssa.Call); ok && isZstd(oc.Call.StaticCallee(), "WithEncoderConcurrency") && len(oc.Call.Args) == 1 {
+									if k, isK := constInt(oc.Call.Args[0]); isK && k == 1 {
+										sync = true
+									}
+								}
+							}
+						}
+					}
+				}
+			}
+			r.Check("R9", funcName(fn)+": the zstd encoder is built synchronous (WithEncoderConcurrency(1))", sync, p.Pos(c.Pos()),
+				"zstd.NewWriter without WithEncoderConcurrency(1): the encoder writes finished blocks to its destination from its own goroutines after Write has returned; behind the stackless writer, which reads and resets that destination between operations, blocks are lost and the stream does not decode (CRC check failed)")
+		})
+	}
+	r.Floor("R9", "zstd.NewWriter calls", n, 1)
 }
